@@ -209,11 +209,21 @@ def pool(contract, seed=0, limit=4000):
         return      # nested function: no live handle
     if cls_name in ("Properties", "PatternDict"):
         def props_objs():
+            # elements that constrain their members first: the interesting behaviour of a Properties object needs declared /
+            # pattern / additional properties (the first failing (properties, value) pair used to sit beyond the search limit)
+            later = []
             for mk in element_makers():
                 try:
                     e = mk()
-                    if not isinstance(e, type) or True:
+                    if getattr(e, "properties", None) or getattr(e, "patternProperties", None) or getattr(e, "additionalProperties", True) is not True:
                         yield e.__properties__
+                    else:
+                        later.append(e)
+                except Exception:
+                    continue
+            for e in later:
+                try:
+                    yield e.__properties__
                 except Exception:
                     continue
         if cls_name == "PatternDict":
